@@ -261,6 +261,18 @@ def negative_sierra_templates(out_dir):
         "store_f([1]) -> ([2]);\nstore_big([0]) -> ([0]);\ncall_g([0]) -> ();\nstore_f([2]) -> ([2]);\nreturn([2]);\n"
         "dup_big([0]) -> ([0], [1]);\nstore_big([0]) -> ([0]);\ndrop_big([0]) -> ();\nstore_big([1]) -> ([1]);\ndrop_big([1]) -> ();\nreturn();\n\n"
         "verif::f@0([0]: T14, [1]: T0) -> (T0);\nverif::g@5([0]: T14) -> ();\n")
+    # local_into_box takes the address of the FIRST cell of its operand: the cells must be contiguous fp-relative cells
+    # (a struct built from two parameters in swapped order is not) - otherwise the box covers foreign stack cells
+    progs["local_into_box_noncontiguous"] = (
+        "type felt252 = felt252;\ntype Pair = Struct<ut@Pair, felt252, felt252>;\ntype BoxPair = Box<Pair>;\n"
+        "libfunc struct_construct_pair = struct_construct<Pair>;\nlibfunc local_into_box_pair = local_into_box<Pair>;\nlibfunc store_temp_box = store_temp<BoxPair>;\n"
+        "struct_construct_pair([1], [0]) -> ([2]);\nlocal_into_box_pair([2]) -> ([3]);\nstore_temp_box([3]) -> ([3]);\nreturn([3]);\n\n"
+        "verif::f@0([0]: felt252, [1]: felt252) -> (BoxPair);\n")
+    progs["local_into_box_gap"] = (
+        "type felt252 = felt252;\ntype Pair = Struct<ut@Pair, felt252, felt252>;\ntype BoxPair = Box<Pair>;\n"
+        "libfunc struct_construct_pair = struct_construct<Pair>;\nlibfunc local_into_box_pair = local_into_box<Pair>;\nlibfunc store_temp_box = store_temp<BoxPair>;\nlibfunc drop_f = drop<felt252>;\n"
+        "struct_construct_pair([0], [2]) -> ([3]);\ndrop_f([1]) -> ();\nlocal_into_box_pair([3]) -> ([4]);\nstore_temp_box([4]) -> ([4]);\nreturn([4]);\n\n"
+        "verif::f@0([0]: felt252, [1]: felt252, [2]: felt252) -> (BoxPair);\n")
     for f in glob.glob(os.path.join(out_dir, "n_*.sierra")):
         os.unlink(f)
     for k, v in progs.items():
